@@ -2,6 +2,7 @@
   C17 — Conventional pagers are resolved correctly (page-number algorithm).
   Definitions: Props/C17Defs.lean; per-family cell checks: Props/C17Fam*.lean.
 -/
+import Distill.Props.LinkScoreProps
 import Distill.Proofs.Terms
 import Distill.Gen.Tables
 import Distill.Gen.Funcs
